@@ -239,6 +239,48 @@ macro_rules! c09_directed {
     }};
 }
 
+/// A DfsSpace last used on ANOTHER, larger graph of the same type - and left there in the middle of a search
+/// (the target was found while nodes were still waiting on the stack) - must give the same answers on this graph.
+/// `$aux` is an encoding (same graph type) of a star 0 -> {1..k} with more nodes than `$abs`.
+#[macro_export]
+macro_rules! c09_space_across {
+    ($ctx:expr, $abs:expr, $o:expr, $enc:expr, $aux:expr) => {{
+        use petgraph::algo::*;
+        let enc = $enc;
+        let aux = $aux;
+        let abs = $abs;
+        let o: &$crate::algs::scc::SccOracle = $o;
+        let g = &enc.g;
+        let desc = || format!("{} encoding of {:?}, workspace last used on a star with {} nodes", enc.name, abs, aux.ids.len());
+        let k = aux.ids.len();
+        for target in [1, k - 1] {
+            let mut space = DfsSpace::new(&aux.g);
+            let dirty = |space: &mut DfsSpace<_, _>| { let _ = has_path_connecting(&aux.g, aux.id(0), aux.id(target), Some(space)); };
+            if abs.directed {
+                dirty(&mut space);
+                if let Some(res) = $ctx.g("toposort (DfsSpace reused across graphs)", &desc, || toposort(g, Some(&mut space))) {
+                    let r2 = match res {
+                        Ok(v) => Ok(v.iter().map(|x| enc.abs(*x)).collect::<Vec<usize>>()),
+                        Err(c) => Err(enc.abs(c.node_id())),
+                    };
+                    let shown = format!("{:?}", r2);
+                    $crate::rep!($ctx, "toposort (DfsSpace reused across graphs)", || format!("{} -> {}", desc(), shown), o.check_toposort(r2));
+                }
+            }
+            for a in 0..abs.n {
+                for b in 0..abs.n {
+                    dirty(&mut space);
+                    if let Some(r) = $ctx.g("has_path_connecting (DfsSpace reused across graphs)", &desc, || has_path_connecting(g, enc.id(a), enc.id(b), Some(&mut space))) {
+                        if r != o.r0[a][b] {
+                            $ctx.viol("has_path_connecting (DfsSpace reused across graphs)", "differs from reachability", format!("{} from {} to {} got {}", desc(), a, b, r));
+                        }
+                    }
+                }
+            }
+        }
+    }};
+}
+
 /// connected_components — needs NodeCompactIndexable + IntoEdgeReferences
 #[macro_export]
 macro_rules! c09_cc {
